@@ -30,13 +30,19 @@ use tantivy::directory::{DirectoryLock, FileHandle, Lock, MmapDirectory, OwnedBy
 use tantivy::merge_policy::NoMergePolicy;
 use tantivy::query::{BooleanQuery, Occur, PhraseQuery, Query, TermQuery};
 use tantivy::schema::{Field, IndexRecordOption, Schema, Value as _, FAST, INDEXED, STORED, STRING, TEXT};
-use tantivy::{Directory, HasLen, Index, IndexReader, IndexWriter, ReloadPolicy, Searcher, TantivyDocument, Term};
+use tantivy::{Directory, HasLen, Index, IndexReader, IndexWriter, ReloadPolicy, Searcher, SearcherGeneration, TantivyDocument, Term, Warmer};
 
 const LOCK: &str = ".tantivy-meta.lock";
 const META: &str = "meta.json";
 const MARK_PUB: &str = ".c05-pub";
 const MARK_GCLIST: &str = ".c05-gclist";
 const MARK_ATTEMPT: &str = ".c05-lock-attempt";
+const MARK_WARM: &str = ".c05-warm";
+/// set when an operation failed because the OS refused to create a thread (shared machine)
+static ENV_TROUBLE: AtomicBool = AtomicBool::new(false);
+fn env_failure(m: &str) -> bool {
+    m.contains("Resource temporarily unavailable") || m.contains("Failed to spawn") || m.contains("failed to spawn thread")
+}
 const WORDS: [&str; 8] = ["apple", "berry", "cedar", "delta", "ember", "fjord", "grove", "heath"];
 
 // ------------------------------------------------------------------------------------------
@@ -738,6 +744,10 @@ fn translate(log: &[OpRec], gc_livings: &[Vec<String>], pub_marks: &[(usize, u64
                 let (_, k) = cur.get(&r.thread).cloned().unwrap_or((rho, 9999));
                 ev.push(format!("o.{rho}.{k}.{}", pid(&r.path)));
             }
+            (Some(rho), OpKind::Exists) if r.path == MARK_WARM => {
+                let (_, k) = cur.get(&r.thread).cloned().unwrap_or((rho, 9999));
+                ev.push(format!("w.{rho}.{k}"));
+            }
             (Some(rho), OpKind::Exists) if r.path == MARK_PUB => {
                 let (_, k) = cur.get(&r.thread).cloned().unwrap_or((rho, 9999));
                 ev.push(format!("p.{rho}.{k}"));
@@ -876,7 +886,13 @@ fn do_reload(gdir: &GDir, reader: &IndexReader) -> Obs {
             let s = reader.searcher();
             Obs { ok: true, err: String::new(), sig: sig_of(&s), check: Some(s) }
         }
-        Ok(Err(e)) => Obs { ok: false, err: format!("{e}"), sig: vec![], check: None },
+        Ok(Err(e)) => {
+            let err = format!("{e}");
+            if env_failure(&err) {
+                ENV_TROUBLE.store(true, Ordering::SeqCst);
+            }
+            Obs { ok: false, err, sig: vec![], check: None }
+        }
         Err(_) => Obs { ok: false, err: "PANIC".into(), sig: vec![], check: None },
     }
 }
@@ -1818,13 +1834,206 @@ fn scenario_oncommit(ctx: &mut Ctx, seed: u64, free_running: bool) {
     }
 }
 
+// ------------------------------------------------------------------------------------------
+// warmers, searcher generations, the inventory of live generations (Model/Generations.lean)
+// ------------------------------------------------------------------------------------------
+/// a well-behaved warmer: one artifact per warmed generation, dropped only when
+/// `garbage_collect` does not list the generation; everything it sees goes into one ordered
+/// event log shared with the scenario (the model's `gens` events)
+struct RecWarmer {
+    g: GDir,
+    log: Arc<Mutex<Vec<String>>>,
+    warmed: Mutex<BTreeSet<u64>>,
+    artifacts: Mutex<BTreeSet<u64>>,
+    gc_calls: Mutex<Vec<Vec<u64>>>,
+}
+
+impl Warmer for RecWarmer {
+    fn warm(&self, searcher: &Searcher) -> tantivy::Result<()> {
+        let g = searcher.generation().generation_id();
+        self.g.mark(MARK_WARM);
+        let mut l = self.log.lock().unwrap();
+        l.push("t".into());
+        l.push(format!("w.{g}"));
+        self.warmed.lock().unwrap().insert(g);
+        self.artifacts.lock().unwrap().insert(g);
+        Ok(())
+    }
+    fn garbage_collect(&self, live: &[&SearcherGeneration]) {
+        let ids: Vec<u64> = live.iter().map(|x| x.generation_id()).collect();
+        let mut l = self.log.lock().unwrap();
+        l.push(format!("G.{}", if ids.is_empty() { "-".to_string() } else { ids.iter().map(|x| x.to_string()).collect::<Vec<_>>().join(",") }));
+        self.artifacts.lock().unwrap().retain(|g| ids.contains(g));
+        self.gc_calls.lock().unwrap().push(ids);
+    }
+}
+
+fn scenario_generations(ctx: &mut Ctx, seed: u64) {
+    let mut rng = Rng::new(seed);
+    let case = json!({"scenario": "generations", "seed": seed});
+    let gdir = GDir::new();
+    let mut w = World::create(Box::new(gdir.clone()));
+    w.add(&mut rng, 3);
+    w.commit();
+    let log: Arc<Mutex<Vec<String>>> = Arc::new(Mutex::new(vec![]));
+    let rec = Arc::new(RecWarmer { g: gdir.clone(), log: log.clone(), warmed: Mutex::new(BTreeSet::new()), artifacts: Mutex::new(BTreeSet::new()), gc_calls: Mutex::new(vec![]) });
+    let dynw: Arc<dyn Warmer> = rec.clone();
+    let weak = Arc::downgrade(&dynw);
+    let ridx = if rng.chance(1, 2) { Index::open(gdir.clone()).unwrap() } else { w.index.clone() };
+    let reader: IndexReader = match on_thread("c05-rd-7", { let g = gdir.clone(); move || { let r: tantivy::Result<IndexReader> = ridx.reader_builder().reload_policy(ReloadPolicy::Manual).warmers(vec![weak]).try_into(); g.mark(MARK_PUB); r } }) {
+        Ok(Ok(r)) => r,
+        _ => {
+            ctx.report.violation("oracle", "C05:index-operation-failed", "creating a reader with a warmer failed".into(), case.clone());
+            return;
+        }
+    };
+    let mut held: Vec<Searcher> = vec![];
+    let mut observed: Vec<((u64, u64), Obs)> = vec![];
+    let mut last_gen: Option<u64> = None;
+    let mut k = 0u64;
+    let mut publish = |ctx: &mut Ctx, held: &mut Vec<Searcher>, hold: bool, k: u64, observed: &mut Vec<((u64, u64), Obs)>, last_gen: &mut Option<u64>| {
+        // the reload (or the creation) has returned: its searcher is in the slot
+        let s = reader.searcher();
+        let g = s.generation().generation_id();
+        log.lock().unwrap().push(format!("s.{g}"));
+        if !rec.warmed.lock().unwrap().contains(&g) {
+            ctx.report.violation("oracle", "C05:published-searcher-not-warmed", format!("the searcher of generation {g} is served but Warmer::warm was never called on it"), case.clone());
+        }
+        if let Some(l) = *last_gen {
+            if g <= l {
+                ctx.report.violation("oracle", "C05:generation-id-not-increasing", format!("sequential reloads drew generation ids {l} then {g}"), case.clone());
+            }
+        }
+        *last_gen = Some(g);
+        observed.push(((7, k), Obs { ok: true, err: String::new(), sig: sig_of(&s), check: Some(s.clone()) }));
+        if hold {
+            log.lock().unwrap().push("k".into());
+            held.push(s);
+        }
+    };
+    let first_hold = rng.chance(1, 2);
+    publish(ctx, &mut held, first_hold, k, &mut observed, &mut last_gen);
+    let rounds = 2 + rng.usize_below(2);
+    for round in 0..rounds {
+        let steps = 3 + rng.usize_below(5);
+        for _ in 0..steps {
+            match rng.below(5) {
+                0..=2 => {
+                    if rng.chance(3, 4) {
+                        let op = w.random_op(&mut rng);
+                        ctx.report.count(&format!("gens-op:{op}"));
+                    }
+                    let o = match on_thread("c05-rd-7", { let g = gdir.clone(); let rd = reader.clone(); move || do_reload(&g, &rd) }) {
+                        Ok(o) => o,
+                        Err(_) => return,
+                    };
+                    k += 1;
+                    if o.ok {
+                        let hold = rng.chance(1, 2);
+                        publish(ctx, &mut held, hold, k, &mut observed, &mut last_gen);
+                    } else {
+                        ctx.report.violation("model", "C05:reload-failed", format!("generations: reload failed: {}", o.err), case.clone());
+                        return;
+                    }
+                }
+                _ => {
+                    if !held.is_empty() {
+                        let i = rng.usize_below(held.len());
+                        let s = held.swap_remove(i);
+                        // the event is logged before the searcher is really dropped
+                        log.lock().unwrap().push(format!("d.{}", s.generation().generation_id()));
+                        drop(s);
+                        ctx.report.count("gens:held-searcher-dropped");
+                    }
+                }
+            }
+        }
+        // the observed searchers are clones too: they keep their generations alive; release them
+        // so that only `held` (and the slot) count, as the model's events say
+        for (_, o) in observed.iter_mut() {
+            o.check = None;
+        }
+        // let the background GC thread of the warming state tick (GC_INTERVAL = 1 s)
+        std::thread::sleep(Duration::from_millis(1150));
+        // every searcher we hold still has its artifact
+        let arts = rec.artifacts.lock().unwrap().clone();
+        for s in &held {
+            let g = s.generation().generation_id();
+            ctx.report.case(&format!("gens|{seed}|{round}|{g}"), true);
+            if !arts.contains(&g) {
+                ctx.report.violation("oracle", "C05:warmer-artifact-of-live-generation-collected", format!("a searcher of generation {g} is still held but Warmer::garbage_collect was called without it: calls {:?}", rec.gc_calls.lock().unwrap()), case.clone());
+            }
+        }
+        let slot_gen = reader.searcher().generation().generation_id();
+        if !arts.contains(&slot_gen) {
+            ctx.report.violation("oracle", "C05:warmer-artifact-of-live-generation-collected", format!("the served generation {slot_gen} lost its artifact: calls {:?}", rec.gc_calls.lock().unwrap()), case.clone());
+        }
+    }
+    let ncalls = rec.gc_calls.lock().unwrap().len();
+    ctx.report.count_n("gens:warmer-gc-calls-observed", ncalls as u64);
+    // the model on the same events: every observed list contains every generation it knows live,
+    // ids are the model's counter values, and its artifacts = the warmer's
+    let events = log.lock().unwrap().clone();
+    let line = if events.is_empty() { "-".to_string() } else { events.join(";") };
+    let resp = ctx.model.ask(&format!("C05 gens {line}"));
+    let arts: Vec<String> = rec.artifacts.lock().unwrap().iter().map(|x| x.to_string()).collect();
+    let want = format!("artifacts={}", if arts.is_empty() { "-".to_string() } else { arts.join(",") });
+    if !resp.starts_with("ok ") {
+        ctx.report.violation("model", "C05:generation-model-differs", format!("generations: the model rejects the observed events ({resp}); events {line}"), case.clone());
+    } else {
+        let mut got: Vec<u64> = resp.split(' ').find_map(|p| p.strip_prefix("artifacts=")).map(|x| if x == "-" { vec![] } else { x.split(',').filter_map(|y| y.parse().ok()).collect() }).unwrap_or_default();
+        got.sort();
+        let gots = format!("artifacts={}", if got.is_empty() { "-".to_string() } else { got.iter().map(|x| x.to_string()).collect::<Vec<_>>().join(",") });
+        if gots != want {
+            ctx.report.violation("model", "C05:generation-model-differs", format!("generations: warmer keeps {want}, model {gots}; events {line}"), case.clone());
+        }
+        let drawn_model: u64 = resp.split(' ').find_map(|p| p.strip_prefix("drawn=")).and_then(|x| x.parse().ok()).unwrap_or(0);
+        if Some(drawn_model) != last_gen.map(|g| g + 1) {
+            ctx.report.violation("model", "C05:generation-model-differs", format!("generations: model drew {drawn_model} ids, the last real generation id is {last_gen:?}"), case.clone());
+        }
+    }
+    // storage trace: discipline, and warming before every publication of this reader
+    let (tr, _metas) = check_trace(ctx, "generations", &gdir, &[], &observed, &w, &[], &case);
+    let evs = if tr.events.is_empty() { "-".to_string() } else { tr.events.join(";") };
+    let wr = ctx.model.ask(&format!("C05 warm 7 {evs}"));
+    if !wr.starts_with("warmed=1") {
+        ctx.report.violation("model", "C05:publication-before-warming-on-real-trace", format!("generations: a publication of the reader is not preceded by its warm event ({wr})"), case.clone());
+    }
+    ctx.report.count("gens:scenario");
+    if ctx.report.samples.len() < 7 {
+        ctx.report.sample(json!({"scenario": "generations", "events": line, "model": resp, "warmer_gc_calls": ncalls}));
+    }
+    drop(dynw);
+}
+
 /// a scenario must not take the harness down: an unexpected failure of a writer / index call
 /// (an `unwrap` in the scenario) is reported with its message and a replayable case
-fn guarded(ctx: &mut Ctx, case: Value, f: impl FnOnce(&mut Ctx)) {
-    let r = catch_unwind(AssertUnwindSafe(|| f(ctx)));
-    if let Err(e) = r {
-        let msg = e.downcast_ref::<String>().cloned().or_else(|| e.downcast_ref::<&str>().map(|s| s.to_string())).unwrap_or_else(|| "panic".into());
+fn guarded(ctx: &mut Ctx, case: Value, f: impl Fn(&mut Ctx)) {
+    // the machine is shared: when the OS refuses to create a thread (EAGAIN) the scenario says
+    // nothing about the property; it is retried after a pause and, failing that, recorded as a
+    // note (not as a violation)
+    for attempt in 0..3 {
+        let before = ctx.report.violations.len();
+        ENV_TROUBLE.store(false, Ordering::SeqCst);
+        let r = catch_unwind(AssertUnwindSafe(|| f(ctx)));
+        let msg = match r {
+            Ok(()) if ENV_TROUBLE.load(Ordering::SeqCst) => "Failed to spawn (reported by a reload)".to_string(),
+            Ok(()) => return,
+            Err(e) => e.downcast_ref::<String>().cloned().or_else(|| e.downcast_ref::<&str>().map(|s| s.to_string())).unwrap_or_else(|| "panic".into()),
+        };
+        if env_failure(&msg) {
+            ctx.report.count("env:thread-spawn-refused-by-os");
+            // drop what the aborted attempt may have reported half-way
+            ctx.report.violations.truncate(before);
+            if attempt == 2 {
+                ctx.report.notes.push(format!("scenario {} given up after 3 attempts: the OS refused to create threads ({})", case["scenario"], msg.chars().take(120).collect::<String>()));
+                return;
+            }
+            std::thread::sleep(Duration::from_secs(3));
+            continue;
+        }
         ctx.report.violation("oracle", "C05:index-operation-failed", format!("a writer / reader / index operation of the scenario failed or panicked: {}", msg.chars().take(300).collect::<String>()), case);
+        return;
     }
 }
 
@@ -1834,6 +2043,7 @@ pub fn replay(ctx: &mut Ctx, case: &Value) {
         "fingerprint" => scenario_fingerprint(ctx, seed, case["mmap"].as_bool().unwrap_or(false), case["steps"].as_u64().unwrap_or(10) as usize),
         "concurrent" => scenario_concurrent(ctx, seed, case["reloads"].as_u64().unwrap_or(10) as usize, case["mmap"].as_bool().unwrap_or(false)),
         "windows" => scenario_windows(ctx, seed, case["windows"].as_u64().unwrap_or(8) as usize, case["mmap"].as_bool().unwrap_or(false)),
+        "generations" => scenario_generations(ctx, seed),
         "overlap" => scenario_overlap(ctx, seed, case["mmap"].as_bool().unwrap_or(false), case["pause"].as_u64().unwrap_or(0)),
         "oncommit" => scenario_oncommit(ctx, seed, case["free_running"].as_bool().unwrap_or(false)),
         other => ctx.report.notes.push(format!("unknown replay scenario {other}")),
@@ -1850,6 +2060,8 @@ pub fn run(ctx: &mut Ctx) {
         "forced windows: reload paused before each storage operation while commit+merge+GC run yields exactly one commit".into(),
         "per reader: observed commits non-decreasing whenever the model's `sequential` holds on the real trace".into(),
         "GC closure marker falls inside the META_LOCK section of the real garbage_collect".into(),
+        "warmers: Warmer::warm runs on every searcher before it is served (real trace: warm event before publish, decided by the model)".into(),
+        "generations: ids = the model's counter; every Warmer::garbage_collect list observed contains every generation the model knows live; a well-behaved warmer's artifacts = the model's".into(),
     ];
     let d = ctx.model.ask("C05 disc");
     if d != "readerLock=1 gcLock=1" {
@@ -1885,7 +2097,12 @@ pub fn run(ctx: &mut Ctx) {
         let free = i % 2 == 1;
         guarded(ctx, json!({"scenario": "oncommit", "seed": seed, "free_running": free}), |ctx| scenario_oncommit(ctx, seed, free));
     }
-    let n_ov = ctx.budget(32, 240);
+    let n_gen = ctx.budget(3, 8);
+    for _ in 0..n_gen {
+        let seed = ctx.rng.next_u64();
+        guarded(ctx, json!({"scenario": "generations", "seed": seed}), |ctx| scenario_generations(ctx, seed));
+    }
+    let n_ov = ctx.budget(32, 180);
     for i in 0..n_ov {
         let seed = ctx.rng.next_u64();
         let mmap = i % 8 == 7 || i % 8 == 4;
